@@ -1445,6 +1445,43 @@ async fn limit_workload(seed: u64, shard: u64) -> Exec {
 			}
 		}
 		// handler must not run for an oversized body in any framing (it is never complete within the limit)
+		// the gate comes first, whatever the size: a body of this size under another method / content type is refused 405 /
+		// 415 like any other (with and without a Content-Length that announces the size)
+		for cl in [true, false] {
+			let m = *r.pick(&["GET", "PUT", "DELETE", "PATCH", "FOO"]);
+			x.check_refused(&ReqSpec { method: m.into(), content_length: cl, ..ref_spec.clone() }, if size > l { "standard-method:body-over-limit" } else { "standard-method" }).await;
+			x.check_refused(&ReqSpec { content_types: vec![b"text/plain".to_vec()], content_length: cl, ..ref_spec.clone() }, if size > l { "text/plain:body-over-limit" } else { "text/plain" }).await;
+			x.check_refused(&ReqSpec { content_types: vec![], content_length: cl, ..ref_spec.clone() }, if size > l { "missing:body-over-limit" } else { "missing" }).await;
+		}
+	}
+	// leading whitespace counts as body bytes: W blanks in front of a call that is W-1..0 bytes under the limit, so that the
+	// whole body is 1..W bytes over it - in every framing, with and without Content-Length
+	for (i, w) in [1usize, 2, 5, 17, 64].into_iter().enumerate() {
+		for over in [1usize, w.div_ceil(2), w] {
+			let tag = format!("s{shard}-ws{i}-{over}");
+			let Some(call) = sized_call(&tag, l + over - w) else { continue };
+			let mut body = vec![b' '; w];
+			if w > 2 {
+				body[w / 2] = b'\n';
+			}
+			body.extend_from_slice(&call);
+			let bc = BodyCase { kind: "call-over-limit-by-its-leading-whitespace", bytes: body.clone(), expect_call: Some(("e".into(), tag.clone())) };
+			let info = CaseInfo { kind: bc.kind, tag: &tag };
+			let (ref_spec, reference) = x.reference(&bc, &tag).await;
+			x.compare(&info, &ref_spec, &reference, &ReqSpec { content_length: false, ..ref_spec.clone() }).await;
+			for _ in 0..8 {
+				let k = 1 + r.usize(4);
+				let mut cuts = seeded_cuts(&mut r, body.len(), k);
+				// one cut shortly after the opening brace, so that some blanks share a frame with it
+				cuts.push((w + 1 + r.usize(4)).min(body.len() - 1));
+				cuts.sort();
+				cuts.dedup();
+				let frames = split(&body, &cuts);
+				for cl in [true, false] {
+					x.compare(&info, &ref_spec, &reference, &ReqSpec { frames: frames.clone(), content_length: cl, ..ref_spec.clone() }).await;
+				}
+			}
+		}
 	}
 	x
 }
